@@ -1574,7 +1574,7 @@ def has_perm(user, perm, x):
         user_roles = get_user_roles(user, obj)
         obj_labels = get_object_labels(obj)
         for rule in access_rules:
-            if x in rule.entities_to_exclude: continue
+            if entity in rule.entities_to_exclude: continue
             elif not user_groups.issuperset(rule.groups): pass
             elif not user_roles.issuperset(rule.roles): pass
             elif not obj_labels.issuperset(rule.labels): pass
